@@ -7,6 +7,8 @@ import (
 	"crypto/sha256"
 	"encoding/base64"
 	"fmt"
+	"net/http"
+	"net/http/httptest"
 	"net/url"
 	"regexp"
 	"sort"
@@ -29,20 +31,23 @@ import (
 // ---------------------------------------------------------------- world
 
 type ClientInfo struct {
-	ID, Secret, Redirect string
-	Auth                 string // AMBasic | AMPost | AMNone
-	JWT, Expired         bool
+	ID, Secret, Redirect  string
+	Auth                  string // AMBasic | AMPost | AMNone | AMPkjwt
+	JWT, Expired          bool
+	NoRefresh, NoExchange bool // grant registrations that are proper subsets
 }
 
 // Clients of every history (ground truth for the model's client table).
 var Clients = []ClientInfo{
-	{"web", "web-secret", "https://web.example.com/cb", "AMBasic", false, false},
-	{"web2", "web2-secret", "https://web2.example.com/cb", "AMPost", true, false},
-	{"native", "", "http://127.0.0.1/cb", "AMNone", false, false},
-	{"spa", "", "https://spa.example.com/cb", "AMNone", true, false},
-	{"webx", "webx-secret", "https://webx.example.com/cb", "AMBasic", false, true},
-	{"web2x", "web2x-secret", "https://web2x.example.com/cb", "AMPost", true, true},
-	{"pkjwt", "", "https://pk.example.com/cb", "AMPkjwt", false, false}, // authenticates by client assertion only
+	{ID: "web", Secret: "web-secret", Redirect: "https://web.example.com/cb", Auth: "AMBasic"},
+	{ID: "web2", Secret: "web2-secret", Redirect: "https://web2.example.com/cb", Auth: "AMPost", JWT: true},
+	{ID: "native", Redirect: "http://127.0.0.1/cb", Auth: "AMNone"},
+	{ID: "spa", Redirect: "https://spa.example.com/cb", Auth: "AMNone", JWT: true},
+	{ID: "webx", Secret: "webx-secret", Redirect: "https://webx.example.com/cb", Auth: "AMBasic", Expired: true},
+	{ID: "web2x", Secret: "web2x-secret", Redirect: "https://web2x.example.com/cb", Auth: "AMPost", JWT: true, Expired: true},
+	{ID: "pkjwt", Redirect: "https://pk.example.com/cb", Auth: "AMPkjwt"},                                                           // authenticates by client assertion only
+	{ID: "webnr", Secret: "webnr-secret", Redirect: "https://webnr.example.com/cb", Auth: "AMBasic", NoRefresh: true},               // token exchange without refresh_token grant
+	{ID: "web2nx", Secret: "web2nx-secret", Redirect: "https://web2nx.example.com/cb", Auth: "AMPost", JWT: true, NoExchange: true}, // no token-exchange grant
 }
 
 func ClientByID(id string) *ClientInfo {
@@ -57,7 +62,7 @@ func ClientByID(id string) *ClientInfo {
 func ClientsTerm() string {
 	var items []string
 	for _, c := range Clients {
-		items = append(items, emit.Ctor("Client", emit.Str(c.ID), emit.Str(c.Secret), c.Auth, emit.Bool(c.JWT), emit.Bool(c.Expired)))
+		items = append(items, emit.Ctor("Client", emit.Str(c.ID), emit.Str(c.Secret), c.Auth, emit.Bool(c.JWT), emit.Bool(c.Expired), emit.Bool(!c.NoRefresh), emit.Bool(!c.NoExchange)))
 	}
 	return emit.List(items)
 }
@@ -74,8 +79,9 @@ type Tok struct {
 }
 
 type jwtDesc struct {
-	issOK, sigOK, expired bool
-	jti, sub, azp         string
+	iss            string // the iss claim
+	sigOK, expired bool
+	jti, sub, azp  string
 }
 
 type World struct {
@@ -88,6 +94,71 @@ type World struct {
 	Tags map[string]bool
 	Log  []map[string]any
 	ver  string
+
+	// where and under which conditions the next request is served
+	Hosts   []string // hosts the provider serves; the issuer of host h is https://<h>
+	Host    int
+	KeysUp  bool // Storage.KeySet works
+	Dynamic bool // issuer derived from the request host (op.IssuerFromHost); else static
+	multi   bool // requests roam over the hosts
+	outages bool // the key storage fails now and then
+}
+
+func (w *World) Issuer(h int) string { return "https://" + w.Hosts[h] }
+
+// issIndex: index of the host whose issuer iss is; 9 = none of them.
+func (w *World) issIndex(iss string) int {
+	for i := range w.Hosts {
+		if w.Issuer(i) == iss {
+			return i
+		}
+	}
+	return 9
+}
+
+// begin chooses host and key-storage condition of the next request.
+func (w *World) begin(issue bool) {
+	if w.multi && w.R.Chance(1, 3) {
+		w.Host = w.R.IntN(len(w.Hosts))
+	}
+	w.KeysUp = true
+	if w.outages && !issue && w.R.Chance(1, 4) {
+		w.KeysUp = false
+	}
+	if w.KeysUp {
+		w.St.FaultMethod = ""
+	} else {
+		w.St.FaultMethod = "KeySet"
+	}
+}
+
+func (w *World) request(r opfix.Router, method, path string, q, form url.Values, basic []string, bearer string) *opfix.Resp {
+	target := w.Issuer(w.Host) + path
+	if q != nil {
+		target += "?" + q.Encode()
+	}
+	var req *http.Request
+	if method == http.MethodPost {
+		req = httptest.NewRequest(method, target, strings.NewReader(form.Encode()))
+		req.Header.Set("Content-Type", "application/x-www-form-urlencoded")
+	} else {
+		req = httptest.NewRequest(method, target, nil)
+	}
+	if len(basic) == 2 {
+		req.SetBasicAuth(url.QueryEscape(basic[0]), url.QueryEscape(basic[1]))
+	}
+	if bearer != "" {
+		req.Header.Set("Authorization", "Bearer "+bearer)
+	}
+	return opfix.Do(w.F.Handlers[r], req)
+}
+
+func (w *World) post(r opfix.Router, path string, form url.Values, basic []string, bearer string) *opfix.Resp {
+	return w.request(r, http.MethodPost, path, nil, form, basic, bearer)
+}
+
+func (w *World) get(r opfix.Router, path string, q url.Values) *opfix.Resp {
+	return w.request(r, http.MethodGet, path, q, nil, nil, "")
 }
 
 func NewWorld(r drv.Rand) *World {
@@ -105,11 +176,53 @@ func NewWorld(r drv.Rand) *World {
 			st.Users[s] = &refstore.User{Subject: s, Name: "N " + s, Email: s + "@example.com"}
 		}
 	}
-	f, err := opfix.New(st, opfix.Options{})
+	for _, c := range Clients {
+		if !c.NoRefresh && !c.NoExchange {
+			continue
+		}
+		var grants []oidc.GrantType
+		for _, g := range all {
+			if (c.NoRefresh && g == oidc.GrantTypeRefreshToken) || (c.NoExchange && g == oidc.GrantTypeTokenExchange) {
+				continue
+			}
+			grants = append(grants, g)
+		}
+		at, am := op.AccessTokenTypeBearer, oidc.AuthMethodBasic
+		if c.JWT {
+			at = op.AccessTokenTypeJWT
+		}
+		if c.Auth == "AMPost" {
+			am = oidc.AuthMethodPost
+		}
+		st.Clients[c.ID] = &refstore.Client{ID: c.ID, Secret: c.Secret, Redirects: []string{c.Redirect},
+			App: op.ApplicationTypeWeb, Auth: am, RespTypes: rts, Grants: grants, ATType: at}
+	}
+	w := &World{St: st, R: r, Tags: map[string]bool{}, ver: "verifier-verifier-verifier-verifier-verifier-123", KeysUp: true}
+	// half of the worlds: a provider that derives its issuer from the request host and serves
+	// several tenants; the others: one static issuer
+	var err error
+	if r.Bool() {
+		w.Dynamic = true
+		w.Hosts = []string{"a.op.example.com", "b.op.example.com", "c.op.example.com"}
+		w.multi = r.Chance(2, 3)
+		w.F, err = opfix.NewWithIssuer(st, opfix.Options{}, op.IssuerFromHost(""))
+		w.tag("issuer=dynamic")
+		if w.multi {
+			w.tag("hosts=several")
+		}
+	} else {
+		w.Hosts = []string{"op.example.com"}
+		w.F, err = opfix.New(st, opfix.Options{})
+		w.tag("issuer=static")
+	}
 	if err != nil {
 		panic(err)
 	}
-	return &World{St: st, F: f, R: r, Tags: map[string]bool{}, ver: "verifier-verifier-verifier-verifier-verifier-123"}
+	if r.Chance(1, 5) {
+		w.outages = true
+		w.tag("keystore=outages")
+	}
+	return w
 }
 
 func (w *World) tag(t string) { w.Tags[t] = true }
@@ -154,15 +267,15 @@ func (w *World) TokTerm(t *Tok) string {
 	if plain, ok := w.F.OpenBearer(t.S); ok {
 		i := strings.IndexByte(plain, ':')
 		if i < 0 {
-			return "OpqNoColon"
+			return "POpqNoColon"
 		}
-		return emit.Ctor("Opq", SidTerm(plain[:i]), emit.Str(plain[i+1:]))
+		return emit.Ctor("POpq", SidTerm(plain[:i]), emit.Str(plain[i+1:]))
 	}
 	if t.jwt != nil {
 		d := t.jwt
-		return emit.Ctor("Jwt", emit.Bool(d.issOK), emit.Bool(d.sigOK), emit.Bool(d.expired), SidTerm(d.jti), emit.Str(d.sub), emit.Str(d.azp))
+		return emit.Ctor("PJwt", emit.Nat(w.issIndex(d.iss)), emit.Bool(d.sigOK), emit.Bool(d.expired), SidTerm(d.jti), emit.Str(d.sub), emit.Str(d.azp))
 	}
-	return emit.Ctor("Raw", SidTerm(t.S))
+	return emit.Ctor("PRaw", SidTerm(t.S))
 }
 
 type Cred struct {
@@ -175,9 +288,8 @@ type Cred struct {
 var pkjwtKey = opfix.ECKey("client-pkjwt")
 
 // SignAssertion builds a private_key_jwt client assertion for iss.
-func SignAssertion(iss, variant string) string {
+func SignAssertion(iss, variant, aud string) string {
 	var key any = pkjwtKey
-	aud := opfix.Issuer
 	switch variant {
 	case "wrong-key":
 		key = opfix.ECKey("not-the-client-key")
@@ -219,7 +331,7 @@ func (c Cred) Term() string {
 	return "NoCred"
 }
 
-func (c Cred) apply(form url.Values) []string {
+func (c Cred) apply(form url.Values, aud string) []string {
 	switch c.Kind {
 	case "basic":
 		return []string{c.ID, c.Sec}
@@ -232,7 +344,7 @@ func (c Cred) apply(form url.Values) []string {
 		form.Set("client_id", c.FormID)
 		return []string{c.ID, c.Sec}
 	case "assert":
-		form.Set("client_assertion", SignAssertion(c.ID, c.Sec))
+		form.Set("client_assertion", SignAssertion(c.ID, c.Sec, aud))
 		form.Set("client_assertion_type", oidc.ClientAssertionTypeJWTAssertion)
 		if c.FormID != "" {
 			form.Set("client_id", c.FormID)
@@ -295,6 +407,7 @@ func errTerm(resp *opfix.Resp) string {
 }
 
 func (w *World) record(in, out string, human map[string]any) {
+	in = emit.Pair(emit.Pair(emit.Nat(w.Host), emit.Bool(w.KeysUp)), in)
 	w.Ops = append(w.Ops, in)
 	w.Outs = append(w.Outs, out)
 	human["in"], human["out"] = in, out
@@ -305,20 +418,24 @@ func (w *World) record(in, out string, human map[string]any) {
 
 // Issue runs a complete authorization-code flow for (client, subject, scopes) on router r.
 func (w *World) Issue(r opfix.Router, client, sub string, scopes []string) {
+	w.begin(true)
 	c := ClientByID(client)
 	in := emit.Ctor("Issue", RouterTerm(r), emit.Str(client), emit.Str(sub), emit.StrList(scopes))
 	q := url.Values{"client_id": {client}, "redirect_uri": {c.Redirect}, "response_type": {"code"},
 		"scope": {strings.Join(scopes, " ")}, "state": {"s"}, "nonce": {"n"}, "code_challenge": {opfix.S256(w.ver)}, "code_challenge_method": {"S256"}}
-	_, id := w.F.Authorize(r, q)
+	id := ""
+	if a := w.get(r, "/authorize", q); a.Status == http.StatusFound && a.Location != nil && strings.HasPrefix(a.Location.Path, "/login") {
+		id = a.Location.Query().Get("authRequestID")
+	}
 	w.St.Login(id, sub)
-	cb := w.F.Callback(r, id)
+	cb := w.get(r, "/authorize/callback", url.Values{"id": {id}})
 	code := ""
 	if p := cb.ResponseParams(); p != nil {
 		code = p.Get("code")
 	}
 	form := url.Values{"grant_type": {"authorization_code"}, "code": {code}, "redirect_uri": {c.Redirect}, "code_verifier": {w.ver}}
-	basic := GoodCred(client).apply(form)
-	resp := w.F.Post(r, "/oauth/token", form, basic, "")
+	basic := GoodCred(client).apply(form, w.Issuer(w.Host))
+	resp := w.post(r, "/oauth/token", form, basic, "")
 	w.tag("issue=" + client)
 	if resp.Panic != "" {
 		w.record(in, "OPanic", map[string]any{"op": "issue", "panic": resp.Panic})
@@ -369,7 +486,7 @@ func (w *World) addIDToken(idt, client string) {
 func descOf(p map[string]any, sigOK bool) *jwtDesc {
 	d := &jwtDesc{sigOK: sigOK}
 	iss, _ := p["iss"].(string)
-	d.issOK = iss == opfix.Issuer
+	d.iss = iss
 	d.jti, _ = p["jti"].(string)
 	d.sub, _ = p["sub"].(string)
 	d.azp, _ = p["azp"].(string)
@@ -379,8 +496,9 @@ func descOf(p map[string]any, sigOK bool) *jwtDesc {
 }
 
 func (w *World) UserInfo(r opfix.Router, t *Tok) {
+	w.begin(false)
 	in := emit.Ctor("UserInfo", RouterTerm(r), w.TokTerm(t))
-	resp := w.F.Post(r, "/userinfo", url.Values{}, nil, t.S)
+	resp := w.post(r, "/userinfo", url.Values{}, nil, t.S)
 	h := map[string]any{"op": "userinfo", "tok": t.Kind, "status": resp.Status, "body": resp.Body}
 	switch {
 	case resp.Panic != "":
@@ -393,10 +511,11 @@ func (w *World) UserInfo(r opfix.Router, t *Tok) {
 }
 
 func (w *World) Introspect(r opfix.Router, c Cred, t *Tok) {
+	w.begin(false)
 	in := emit.Ctor("Introspect", RouterTerm(r), c.Term(), w.TokTerm(t))
 	form := url.Values{"token": {t.S}}
-	basic := c.apply(form)
-	resp := w.F.Post(r, "/oauth/introspect", form, basic, "")
+	basic := c.apply(form, w.Issuer(w.Host))
+	resp := w.post(r, "/oauth/introspect", form, basic, "")
 	h := map[string]any{"op": "introspect", "tok": t.Kind, "status": resp.Status, "body": resp.Body}
 	switch {
 	case resp.Panic != "":
@@ -418,13 +537,14 @@ func (w *World) Introspect(r opfix.Router, c Cred, t *Tok) {
 }
 
 func (w *World) Revoke(r opfix.Router, c Cred, t *Tok, hint string) {
+	w.begin(false)
 	in := emit.Ctor("Revoke", RouterTerm(r), c.Term(), w.TokTerm(t), emit.Bool(hint == "access_token"))
 	form := url.Values{"token": {t.S}}
 	if hint != "" {
 		form.Set("token_type_hint", hint)
 	}
-	basic := c.apply(form)
-	resp := w.F.Post(r, "/revoke", form, basic, "")
+	basic := c.apply(form, w.Issuer(w.Host))
+	resp := w.post(r, "/revoke", form, basic, "")
 	h := map[string]any{"op": "revoke", "tok": t.Kind, "hint": hint, "status": resp.Status, "body": resp.Body}
 	switch {
 	case resp.Panic != "":
@@ -437,6 +557,7 @@ func (w *World) Revoke(r opfix.Router, c Cred, t *Tok, hint string) {
 }
 
 func (w *World) EndSession(r opfix.Router, hint *Tok, clientID string) {
+	w.begin(false)
 	ht := emit.None
 	q := url.Values{}
 	if hint != nil {
@@ -447,7 +568,7 @@ func (w *World) EndSession(r opfix.Router, hint *Tok, clientID string) {
 		q.Set("client_id", clientID)
 	}
 	in := emit.Ctor("EndSession", RouterTerm(r), ht, emit.Str(clientID))
-	resp := w.F.Get(r, "/end_session", q)
+	resp := w.get(r, "/end_session", q)
 	h := map[string]any{"op": "end_session", "status": resp.Status, "body": resp.Body}
 	switch {
 	case resp.Panic != "":
@@ -471,6 +592,7 @@ type Exch struct {
 }
 
 func (w *World) Exchange(r opfix.Router, x Exch) {
+	w.begin(false)
 	actor := emit.None
 	form := url.Values{"grant_type": {string(oidc.GrantTypeTokenExchange)}, "subject_token": {x.Subj.S}}
 	if u := TypeURN[x.SubjType]; u != "" {
@@ -494,8 +616,8 @@ func (w *World) Exchange(r opfix.Router, x Exch) {
 	}
 	in := emit.Ctor("Exchange", RouterTerm(r), x.Cred.Term(), w.TokTerm(x.Subj), x.SubjType, actor, x.Requested,
 		emit.StrList(x.Scopes), emit.StrList(x.Audience))
-	basic := x.Cred.apply(form)
-	resp := w.F.Post(r, "/oauth/token", form, basic, "")
+	basic := x.Cred.apply(form, w.Issuer(w.Host))
+	resp := w.post(r, "/oauth/token", form, basic, "")
 	h := map[string]any{"op": "exchange", "subj": x.Subj.Kind, "styp": x.SubjType, "req": x.Requested, "status": resp.Status, "body": resp.Body}
 	if x.Actor != nil {
 		h["actor"] = x.Actor.Kind
@@ -632,13 +754,13 @@ func (w *World) RawID(id string) *Tok { return &Tok{S: id, Kind: "raw-id"} }
 // CraftJWT signs claims like the provider's JWT access tokens / ID tokens, with chosen defects.
 // variant: other-issuer | wrong-key | wrong-kid | expired | good
 func (w *World) CraftJWT(variant, jti, sub, client string, idToken bool) *Tok {
-	iss := opfix.Issuer
+	iss := w.Issuer(w.Host)
 	key := w.St.Signing
 	exp := time.Now().Add(time.Hour)
-	d := &jwtDesc{issOK: true, sigOK: true, jti: jti, sub: sub}
+	d := &jwtDesc{sigOK: true, jti: jti, sub: sub}
 	switch variant {
 	case "other-issuer":
-		iss, d.issOK = "https://other-op.example.com", false
+		iss = "https://other-op.example.com"
 	case "wrong-key":
 		key = &refstore.SigningKey{KID: key.KID, Alg: jose.ES256, Priv: opfix.ECKey("not-the-op-key")}
 		d.sigOK = false
@@ -649,6 +771,7 @@ func (w *World) CraftJWT(variant, jti, sub, client string, idToken bool) *Tok {
 		exp = time.Now().Add(-time.Hour)
 		d.expired = true
 	}
+	d.iss = iss
 	signer, err := op.SignerFromKey(key)
 	if err != nil {
 		panic(err)
